@@ -451,6 +451,10 @@ def check_cu_kernels(chk, drv, sp, rng, nrand):
             exp = min(int(np.searchsorted(sp.breaks, x, side='right') - 1), sp.nc - 1) + 3
             if span != exp:
                 chk.fail('C07:cu_find_span', 'span index is not 3 + the cell containing x (last cell at the right end)', case0, exp, span)
+            gspan = guarded(chk, 'nu_find_span', case0, lambda: int(nu_find_span(sp.tf, 3, x)))
+            if gspan is not None and gspan != span:
+                chk.fail('C07:cubic-vs-general', 'cu_find_span and nu_find_span (on the uniform knot vector) pick different cells',
+                         case0, gspan, span)
             if mo['span'] != span:
                 chk.diff('cu_find_span span', case0, mo['span'], span)
             elif abs(Fr(off) - Fr(mo['offset'])) > 4 * Fr(EPS) * Fr(max(1.0, npos)):
